@@ -140,9 +140,13 @@ def _sum_terms(terms):
     sab = np.zeros(terms[0].shape)
     ex = np.ones(terms[0].shape, bool)
     for t in terms:
-        tot = tot + t
+        new = tot + t
+        # error-free transformation (TwoSum): the float64 addition itself must be exact for the sum to count as exact (-2 - 2**63 is not)
+        bb = new - tot
+        err = (tot - (new - bb)) + (t - bb)
+        tot = new
         sab = sab + np.abs(t)
-        ex &= _f32exact(t) & _f32exact(tot)
+        ex &= _f32exact(t) & _f32exact(tot) & (err == 0)
     return tot, sab, ex
 
 
